@@ -146,11 +146,32 @@ loop:
 	return out
 }
 
+// describeSteps: `<scenario>@<mwt>[<step>/<pause>,…]`; a run of k > 1 equal consecutive entries is written once as
+// `<step>/<pause>*k` (round 6: scenarios of up to 2^20 steps are within the domain)
 func describeSteps(s *httpscenario.Scenario) string {
 	var parts []string
-	for _, r := range s.Requests {
-		parts = append(parts, esc(r.Name)+"/"+strconv.FormatInt(int64(r.Sleep/time.Millisecond), 10))
+	prevName, prevSleep, run := "", int64(0), 0
+	flush := func() {
+		if run == 0 {
+			return
+		}
+		e := esc(prevName) + "/" + strconv.FormatInt(prevSleep, 10)
+		if run > 1 {
+			e += "*" + strconv.Itoa(run)
+		}
+		parts = append(parts, e)
 	}
+	for i := range s.Requests {
+		r := &s.Requests[i]
+		ms := int64(r.Sleep / time.Millisecond)
+		if run > 0 && r.Name == prevName && ms == prevSleep {
+			run++
+			continue
+		}
+		flush()
+		prevName, prevSleep, run = r.Name, ms, 1
+	}
+	flush()
 	return esc(s.Name) + "@" + strconv.FormatInt(int64(s.MinWaitingTime/time.Millisecond), 10) + "[" + strings.Join(parts, ",") + "]"
 }
 
